@@ -424,6 +424,13 @@ def main_wrapper(fn):
     except ToolError as e:
         print("TOOL-ERROR: %s" % e)
         sys.exit(2)
+    except SystemExit:
+        raise
+    except BaseException as e:         # a bug in the machinery must never look like a verdict (exit 1)
+        import traceback
+        traceback.print_exc()
+        print("TOOL-ERROR: %s: %s" % (type(e).__name__, e))
+        sys.exit(2)
     sys.exit(rc)
 
 
